@@ -450,6 +450,33 @@ Definition sp_topic_scope (e : entity) : list bytes :=
   ++ flat_map (fun s => [sp_summary_name e s ++ bs "Message"; to_camel (sp_summary_name e s) ++ bs "Topic"])
               (e_summaries e).
 
+(* ---- enum options are distinct names for protobuf ---------------------------------------------------------
+   protoc's rule (the converter applies it since fix 4fb405b): within one enum, the names of the values with the
+   enum-name prefix removed (ignoring case and '_') and the rest put into PascalCase are pairwise distinct.
+   Stated on the declaration: for the statuses (enum <Camel>Status), for every enum of the block and for every
+   inline enum at any depth (enum ToCamel(field)); the value lists are the documented ones. *)
+Definition sp_canonical_distinct (enum_name : bytes) (values : list bytes) : bool :=
+  nodup_bytes (map (fun v => enum_value_name (trim_enum_prefix v (enum_prefix_of enum_name))) values).
+Definition sp_inline_enum_ok (field : bytes) (k : N) (opts : list bytes) : bool :=
+  if k =? 2 then sp_canonical_distinct (to_camel field) (sp_inline_enum_values (to_camel field) opts) else true.
+Fixpoint sp_tfield_enums_ok (t : tfield) : bool :=
+  match t with
+  | TF n (TKInline k _ fs os) _ _ _ => sp_inline_enum_ok n k os && forallb sp_tfield_enums_ok fs
+  | _ => true
+  end.
+Definition sp_ufield_enums_ok (u : ufield) : bool :=
+  match uf_kind u with
+  | KInlineEnum os => sp_inline_enum_ok (uf_name u) 2 os
+  | KInlineTree k fs => sp_inline_enum_ok (uf_name u) k [] && forallb sp_tfield_enums_ok fs
+  | _ => true
+  end.
+Definition sp_enums_ok (e : entity) : bool :=
+  sp_canonical_distinct (sp_name e "Status") (sp_enum_values_n (sp_status_prefix e) (e_status e) (sp_first_number e))
+  && forallb (fun s => match s with
+                       | SEnum n opts => sp_canonical_distinct n (sp_enum_values (to_screaming_snake n ++ [95]) opts)
+                       | _ => true end) (e_schemas e)
+  && forallb sp_ufield_enums_ok (all_ufields e).
+
 (* ---- "all named from the entity name": the exact names ---------------------------------------------------
    the Status enum holds exactly the documented values, numbered 0, 1, .. in that order; the query service's
    six messages, each command service and the messages of its methods, the publish topic with its method and
@@ -546,7 +573,7 @@ Definition in_quantifier (e : entity) : bool :=
   (* the options of one enum - the statuses, the options of an enum of the block or of an inline enum -
      are distinct names for protobuf: their canonical names (enum-name prefix removed, PascalCase, protoc's
      rule) differ; `Active` next to `ACTIVE` is one name twice (a positioned compile error since fix 4fb405b) *)
-  decl_enums_ok e
+  sp_enums_ok e
   && name_ok (e_name e) && pkg_ok (e_pkg e)
   && (is_nil (e_base_url e) || (rel_path_ok (e_base_url e) && is_nil (colon_params (e_base_url e))))
   (* 1..n keys of any type *)
